@@ -21,7 +21,7 @@ from .values import (S, VOpt, VQty, VTime, VDelta, VEnum, SEnum, VRec, VRef, HOb
                      BoundBuiltin, Opaque, Unsupported, fresh_name, reset_fresh, GhostSeq, KeySetVal, HKeySet, HOptDict, HSymList, HSymSet)
 
 
-TASK_OUTCOMES = ["returned", "Exception", "CancelledError"]
+TASK_OUTCOMES = ["returned", "Exception", "CancelledError", "OperationOutOfRange", "ApiClientError", "TimeoutError"]
 
 
 class FunctionReport:
@@ -226,6 +226,8 @@ class Engine:
                 return r
         if isinstance(v, Coro):
             return self.run_coro(it, v)
+        if isinstance(v, VRef) and isinstance(it.ctx.heap.get(v.addr), HObj) and it.ctx.heap[v.addr].cls == "ext:asyncio.Task":
+            return models.await_task(it, v)
         return v
 
     def run_coro(self, it, co):
@@ -862,6 +864,8 @@ class Engine:
                 sfr.locals[pn] = self.coerce_keyset(it, shp, sfr.locals[pn])
         short = target.split(":")[-1]
         for nm, expr in c.requires.items():
+            if self.clause_names(expr) & set(c.ghost):
+                continue   # about the callee's own ghost collaborators (not visible to this caller)
             g = self.eval_clause(it, expr, sfr)
             ctx.check(f"{self.current.target.split(':')[-1]}::call[{short}].requires.{nm}", g, kind="precondition")
             ctx.assume(zbool(g) if not isinstance(g, bool) else g)
@@ -889,6 +893,8 @@ class Engine:
         old_heap = ctx.snapshot_heap()
         # frame: havoc what the callee may modify
         for path in c.modifies:
+            if path.split(".")[0] not in sfr.locals:
+                continue   # a ghost collaborator of the callee: not visible to this caller
             self.havoc_path(it, sfr, path, c)
         result = None
         if c.result is not None:
